@@ -23,7 +23,7 @@ def jobs(tier):
                      stubs=["stamp pair = documented test-and-set", "per-interface hash pools empty"],
                      bounds=f"{l0} rule(s) without type + {l1} rule(s) for the message's type, owners among 3 connections, member key / eavesdrop flag symbolic",
                      shape=f"recipient set, pools {l0}+{l1}", cost=1 + l0 + l1))
-    for mode, nm, fn in ((0, "remove_by_value", "bus_matchmaker_remove_rule_by_value"), (1, "disconnected", "bus_matchmaker_disconnected")):
+    for mode, nm, fn in ((0, "remove_by_value", "bus_matchmaker_remove_rule_by_value"), (1, "disconnected", "bus_matchmaker_disconnected"), (2, "add_rule", "bus_matchmaker_add_rule")):
         for l in (0, 1, 2, 3):
             if mode == 1 and l == 0: continue
             J.append(Job(name=f"d.{nm}.L{l}", group="C07.d", harness="harness/C07_remove.c", defines={"L": l, "MODE": mode}, real=REAL, env=ENV,
